@@ -5,7 +5,9 @@ from .. import vim_lang as V
 from ..common import C, server_map
 
 TEXTS = [t for t in V.TEXTS if len(t) > 8 and "\r" not in t]
-TYPED = ["ab", "X", "new ", "é", "x y", "q<BS>r", "k<left>j", "a<right>b", "", "<BS>", "<BS><BS>Z"]
+TYPED = ["ab", "X", "new ", "é", "x y", "q<BS>r", "k<left>j", "a<right>b", "", "<BS>", "<BS><BS>Z",
+         # <c-w> over what the session typed, and at the very place the session began (where it reaches back into the old text)
+         "foo <c-w>x", "<c-w>y", "ab<c-w><c-w>z", "<c-w>"]
 
 
 def xmotion(rng, counts):
